@@ -7,6 +7,8 @@ import (
 	"sort"
 	"strings"
 
+	"tunnox-core/internal/cloud/repos"
+	"tunnox-core/internal/constants"
 	"tunnox-core/internal/core/storage/hybrid"
 	vc "tunnox-core/internal/verifharness/common"
 )
@@ -18,6 +20,7 @@ type frame struct{ choice, n int }
 type explorer struct {
 	stack  []frame
 	nondet int
+	evTags []string // eviction entries ("E0c", "E0s", "E1c") that may be placed once, anywhere
 }
 
 type alt struct {
@@ -28,6 +31,7 @@ type alt struct {
 // chooser for one run: follows the stack, extends it with first choices.
 func (x *explorer) chooser(budget int, faultTiers string) chooser {
 	depth := 0
+	evLeft := len(x.evTags) > 0
 	return func(parked []*thr) (*thr, string) {
 		alts := make([]alt, 0, 2*len(parked))
 		for _, t := range parked {
@@ -40,6 +44,11 @@ func (x *explorer) chooser(budget int, faultTiers string) chooser {
 				} else if strings.Contains(faultTiers, t.tier) {
 					alts = append(alts, alt{t, t.tier})
 				}
+			}
+		}
+		if evLeft {
+			for _, e := range x.evTags {
+				alts = append(alts, alt{nil, e})
 			}
 		}
 		if depth == len(x.stack) {
@@ -55,7 +64,9 @@ func (x *explorer) chooser(budget int, faultTiers string) chooser {
 		}
 		depth++
 		a := alts[f.choice]
-		if a.tag != "" {
+		if a.t == nil {
+			evLeft = false
+		} else if a.tag != "" {
 			budget--
 		}
 		return a.t, a.tag
@@ -79,7 +90,12 @@ var nondetTotal int
 // explore runs every interleaving of the case (bounded by limit), with up to `budget` injected failures
 // on the tiers named in faultTiers.
 func explore(out *vc.Out, k *kase, budget int, faultTiers string, limit int, tag string) int {
-	x := &explorer{}
+	return exploreEv(out, k, budget, faultTiers, nil, limit, tag)
+}
+
+// exploreEv: as explore, and one eviction of the named cache entries at every position.
+func exploreEv(out *vc.Out, k *kase, budget int, faultTiers string, evTags []string, limit int, tag string) int {
+	x := &explorer{evTags: evTags}
 	n := 0
 	for {
 		r := execCase(k, x.chooser(budget, faultTiers), 0)
@@ -133,6 +149,26 @@ func routeKeys() []string {
 			add(p[:len(p)-1])
 		}
 	}
+	// keys as the code base builds them (internal/constants, internal/cloud/repos, distributed.StorageBasedLock,
+	// cleanup manager, idgen, node allocator, session buffer)
+	for _, k := range []string{
+		constants.KeyPrefixPersistClientConfig + "10000001", constants.KeyPrefixPersistClientsList,
+		constants.KeyPrefixPersistMapping + "pm_1", constants.KeyPrefixRuntimeClientState + "10000001",
+		constants.KeyPrefixRuntimeClientToken + "10000001", constants.KeyPrefixRuntimeNodeClients + "node-1",
+		constants.KeyPrefixRuntimeConnectionCodeByCode + "abc-def-ghi", constants.KeyPrefixRuntimeConnectionCodeByID + "cc_1",
+		constants.KeyPrefixRuntimeConnectionCodeClaim + "abc-def-ghi", constants.KeyPrefixIndexConnectionCodeByTarget + "10000001",
+		constants.KeyPrefixClientMappings + ":10000001", constants.KeyPrefixUserMappings + ":u1",
+		constants.KeyPrefixPortMapping + ":pm_1", constants.KeyPrefixMappingList,
+		constants.KeyPrefixClientList, constants.KeyPrefixUserList, constants.KeyPrefixNodeList,
+		constants.KeyPrefixUser + ":u1", constants.KeyPrefixClient + ":10000001", constants.KeyPrefixNode + ":node-1",
+		constants.KeyPrefixID + ":used:client:10000001", constants.KeyPrefixCleanup + ":cleanup_expired",
+		constants.KeyPrefixTempVerifyCode + "x", constants.KeyPrefixAuthCode + "x",
+		repos.KeyHTTPDomainMappingList, repos.KeyHTTPDomainNextID, repos.HTTPDomainMappingKey("hdm_1"),
+		repos.HTTPDomainIndexKey("a.example.com"), repos.HTTPDomainDeleteClaimKey("hdm_1"), repos.HTTPDomainClientKey(10000001),
+		"lock:cleanup_task:cleanup_expired", "lock:idgen", "tunnox:node:allocated:1", "tunnel:state:t1",
+		"webhook:w1", "webhooks:list", "webhook_log:l1", "webhook_logs:w1"} {
+		add(k)
+	}
 	for _, k := range []string{"other:key", "tunnox:", "webhook", "webhooks:1", "webhook_logs:7", "webhook_log:7",
 		"tunnox:http_domain:next_id", "tunnox:http_domain:next_id_2", "tunnox:http_domain:other",
 		"tunnox:runtime:conncode:abc", "tunnox:runtime:client:state:5", "tunnox:runtime:x", "tunnox:stats:x",
@@ -143,7 +179,8 @@ func routeKeys() []string {
 	return ks
 }
 
-var routeOps = []string{"get", "ex", "set:s1:0", "set:s2:7200000000000", "del", "getl", "app:1", "rem:1", "incr", "exp:7000000000000"}
+var routeOps = []string{"get", "ex", "set:s1:0", "set:s2:7200000000000", "set:L5,6:0", "del", "getl", "app:1", "rem:1", "incr",
+	"exp:7000000000000", "setnx:s1:7200000000000", "setnx:s1:0", "hset:s1", "hget", "hdel"}
 
 func initFor(op string, variant int, sh bool) [3]string {
 	v := "s9"
@@ -188,6 +225,9 @@ func gen(out *vc.Out, r *vc.Rand, thorough bool) {
 		for _, cfgi := range cfgis {
 			pe, sh := cfgi&1 == 1, cfgi&2 == 2
 			for _, op := range routeOps {
+				if strings.HasPrefix(op, "h") && !strings.Contains(key, ":") {
+					continue // the hash methods address <key>:<field>
+				}
 				variants := []int{r.Intn(4)}
 				if thorough {
 					variants = []int{0, 1, 2, 3}
@@ -345,6 +385,58 @@ func gen(out *vc.Out, r *vc.Rand, thorough bool) {
 		k := &kase{variant: variantFlag, pe: c.pe, sh: c.sh, key: key, init: in, ops: ops}
 		res := execCase(k, randomChooser(r, 12, "p"), 0)
 		emit(out, res, "random")
+	}
+
+	// F. a cache entry expires / is evicted at any point of the schedule (persisted categories: the cache is
+	// only a cache, nothing may be lost or resurrected)
+	evKeys := []struct {
+		key string
+		sh  bool
+		ev  string
+	}{{catKeys[1], false, "E0c"}, {catKeys[3], true, "E0s"}, {catKeys[3], false, "E0c"}}
+	for _, ek := range evKeys {
+		for _, in := range inits(ek.key, ek.sh, "s1")[1:] {
+			for _, ops := range [][]string{{"get", "set:s5:0"}, {"get", "del"}, {"set:s5:0", "ex"}, {"set:s5:0", "del"}, {"get", "get"}} {
+				k := &kase{variant: variantFlag, pe: true, sh: ek.sh, key: ek.key, init: in, ops: ops}
+				exploreEv(out, k, 0, "", []string{ek.ev}, limit, "evict-kv")
+			}
+		}
+		for _, in := range inits(ek.key, ek.sh, "L1,2")[1:] {
+			for _, ops := range [][]string{{"app:7", "app:8"}, {"app:7", "rem:1"}, {"rem:1", "rem:2"}} {
+				k := &kase{variant: variantFlag, pe: true, sh: ek.sh, key: ek.key, init: in, ops: ops}
+				exploreEv(out, k, 0, "", []string{ek.ev}, limit, "evict-list")
+			}
+		}
+	}
+
+	// G. two facade instances (nodes) on one shared cache and one persistent tier: the calls of a pair are
+	// issued on different nodes, all interleavings
+	twoKeys := []string{catKeys[1], catKeys[2], catKeys[3], "lock:cleanup_task:t1"}
+	if thorough {
+		twoKeys = append(append([]string{}, catKeys...), "tunnox:index:conncode:target:k1", "lock:cleanup_task:t1",
+			repos.KeyHTTPDomainMappingList)
+	}
+	for _, key := range twoKeys {
+		for _, c := range []cf{{false, true}, {true, true}, {true, false}} {
+			for _, in := range inits(key, c.sh, "s1")[:2] {
+				for _, ops := range [][]string{{"set:s5:0", "get"}, {"get", "del"}, {"set:s5:0", "ex"}, {"setnx:s5:0", "get"},
+					{"set:s5:0", "set:s6:0"}, {"del", "get"}} {
+					if !thorough && c.pe && !c.sh && ops[0] != "set:s5:0" {
+						continue
+					}
+					k := &kase{variant: variantFlag, pe: c.pe, sh: c.sh, key: key, init: in, ops: ops, nodes: []int{0, 1}}
+					explore(out, k, 0, "", limit, "two-node-kv")
+				}
+			}
+			if c.sh {
+				for _, in := range inits(key, c.sh, "L1,2")[:2] {
+					for _, ops := range [][]string{{"app:7", "app:8"}, {"app:7", "rem:1"}} {
+						k := &kase{variant: variantFlag, pe: c.pe, sh: c.sh, key: key, init: in, ops: ops, nodes: []int{0, 1}}
+						explore(out, k, 0, "", limit, "two-node-list")
+					}
+				}
+			}
+		}
 	}
 
 	// E. excluded points: failures of a cache tier (the recorded findings live here), tiers that disagree initially
